@@ -309,6 +309,9 @@ func raceStress(cases []run.Case) (note string, races string, err error) {
 
 func replayC14(c *hx.Ctx) error {
 	data, err := os.ReadFile(c.Replay)
+	if err != nil && !filepath.IsAbs(c.Replay) { // the check runs the harness in go/, the path is relative to its parent
+		data, err = os.ReadFile(filepath.Join("..", c.Replay))
+	}
 	if err != nil {
 		return err
 	}
